@@ -8,12 +8,12 @@ azimuthal / longitudinal / temporal names); every statement is proved by exhaust
 (128 / 16 / 256 cases) and a symbolic composition.  List versions (`objModel s`, `Doc s`, …) are instances at
 `n := NS.ofList s`.
 
-Summary of what is TRUE of the code (see the individual theorems):
-* `vector.obj` = documented grammar, EXCEPT on the 48 sets whose temporal names are exactly {E, e} or exactly {M, m}
-  (complete azimuthal pair + one longitudinal name): accepted, `e` resp. `m` silently wins.
-* the object classes accept exactly the sets whose GENERIC IMAGE is a documented set of their dimension: they agree with
-  the grammar on sets without two spellings of one coordinate, accept every set with repeated spellings
-  (`VectorObject2D(x=, px=, y=)`: the later keyword wins), and the flavor is the class, never the spelling.
+Summary of what is TRUE of the code (tree /repo at cc3adc8, after the fixes of `vector.obj` E+e / M+m, of the repeated
+spellings in the object classes and of the `VectorObject4D` type check):
+* `vector.obj` = documented grammar on ALL name sets (`c06_obj_eq_doc`).
+* the object classes accept exactly the documented sets of their dimension, in any documented spelling, and build the
+  documented vector (`c06_class_eq_doc`); the only deviation left is the FLAVOR, which is the class, never the spelling
+  (`VectorObject2D(px=, py=)` is a generic vector, `MomentumObject3D(rho=, phi=, eta=)` a momentum vector).
 * the array constructors build a vector only from a complete documented subset, the rest is carried as extra fields;
   `vector.array` decides flavor and dimension from ALL names (extras included) and raises `ValueError` (not `TypeError`)
   on repeated spellings.
@@ -91,71 +91,25 @@ private theorem stored_of_parts {n : NS} {mom : Bool} {az : Az} {a1 a2 : CN} {lo
 
 /-! ### (a) `vector.obj` against the documented grammar -/
 
-/-- the temporal names are exactly {E, e} or exactly {M, m} -/
-def TmpN.aliasPair (t : TmpN) : Bool :=
-  t == ⟨false, true, true, false, false, false, false, false⟩ || t == ⟨false, false, false, false, false, true, true, false⟩
-
 theorem c06_obj_az_eq_doc : ∀ a, objAz a = docAz a := AzN.forall (by decide)
 theorem c06_obj_lon_eq_doc : ∀ l, objLon l = docLon l := LonN.forall (by decide)
-theorem c06_obj_tmp_eq_doc : ∀ t, t.aliasPair = false → objTmp t = docTmp t := TmpN.forall (by decide)
+theorem c06_obj_tmp_eq_doc : ∀ t, objTmp t = docTmp t := TmpN.forall (by decide)
 
-/-- {E, e}: both are popped into `generic_coordinates["t"]`, `e` overwrites `E`; the grammar forbids the set -/
-theorem c06_obj_tmp_Ee : objTmp ⟨false, true, true, false, false, false, false, false⟩ = some (some (.t, .e))
-    ∧ docTmp ⟨false, true, true, false, false, false, false, false⟩ = none := by decide
-/-- {M, m}: `m` overwrites `M` -/
-theorem c06_obj_tmp_Mm : objTmp ⟨false, false, false, false, false, true, true, false⟩ = some (some (.tau, .m))
-    ∧ docTmp ⟨false, false, false, false, false, true, true, false⟩ = none := by decide
-
-/-- **`vector.obj` = documented grammar** on every name set whose temporal names are not exactly {E, e} / {M, m}:
-the documented sets are accepted with the documented dimension, coordinate system, flavor and slot contents, every other
-set (missing partner, two coordinates of one group, a coordinate spelled twice through synonyms, temporal without
-longitudinal, unrecognised name) raises `TypeError`. -/
-theorem c06_obj_partial (n : NS) (h : n.t.aliasPair = false) : objB n = docE (docB n) := by
+/-- **`vector.obj` = documented grammar** on EVERY name set: the documented sets are accepted with the documented
+dimension, coordinate system, flavor and slot contents, every other set (missing partner, two coordinates of one group, a
+coordinate spelled twice through synonyms — `E` with `e` and `M` with `m` included —, temporal without longitudinal,
+unrecognised name) raises `TypeError`. -/
+theorem c06_obj_eq_doc (n : NS) : objB n = docE (docB n) := by
   unfold objB docB
-  rw [c06_obj_az_eq_doc, c06_obj_lon_eq_doc, c06_obj_tmp_eq_doc _ h]
+  rw [c06_obj_az_eq_doc, c06_obj_lon_eq_doc, c06_obj_tmp_eq_doc]
   cases n.other <;> simp only [Bool.false_eq_true, if_true, if_false, docE]
   rcases docAz n.a with _ | ⟨az, a1, a2⟩ <;> rcases docLon n.l with _ | _ | l <;> rcases docTmp n.t with _ | _ | t <;> rfl
 
-def TmpN.Ee : TmpN := ⟨false, true, true, false, false, false, false, false⟩
-def TmpN.Mm : TmpN := ⟨false, false, false, false, false, true, true, false⟩
-
-theorem TmpN.aliasPair_iff : ∀ t : TmpN, t.aliasPair = true ↔ t = .Ee ∨ t = .Mm := TmpN.forall (by decide)
-
-/-- **the exceptions**: with a documented azimuthal pair and exactly one longitudinal name, `E=` together with `e=`
-(resp. `M=` with `m=`) is ACCEPTED by `vector.obj` — a momentum 4D vector whose `t` holds the value given as `e`
-(resp. `tau` the value given as `m`) — although the grammar forbids spelling one coordinate twice.
-Real code: `vector.obj(x=1, y=2, z=3, E=4, e=5)` → `MomentumObject4D(px=1, py=2, pz=3, E=5)`. -/
-theorem c06_obj_accepts_duplicate_temporal (n : NS) (ho : n.other = false) {az : Az} {a1 a2 : CN} {l : LonC}
-    (ha : docAz n.a = some (az, a1, a2)) (hl : docLon n.l = some (some l)) :
-    (n.t = .Ee → objB n = .ok ⟨true, az, a1, a2, some l, some (.t, .e)⟩ ∧ docB n = none) ∧
-    (n.t = .Mm → objB n = .ok ⟨true, az, a1, a2, some l, some (.tau, .m)⟩ ∧ docB n = none) := by
-  constructor <;> intro ht
-  · have h1 := c06_obj_tmp_Ee
-    have hm : n.anyMom = true := by simp [NS.anyMom, ht, TmpN.Ee, TmpN.anyMom]
-    simp only [objB, docB, ho, c06_obj_az_eq_doc, c06_obj_lon_eq_doc, ha, hl, ht, TmpN.Ee, h1.1, h1.2, hm]
-    simp
-  · have h1 := c06_obj_tmp_Mm
-    have hm : n.anyMom = true := by simp [NS.anyMom, ht, TmpN.Mm, TmpN.anyMom]
-    simp only [objB, docB, ho, c06_obj_az_eq_doc, c06_obj_lon_eq_doc, ha, hl, ht, TmpN.Mm, h1.1, h1.2, hm]
-    simp
-
-/-- characteristic function of the exceptions -/
-def objCex (n : NS) : Bool :=
-  !n.other && n.t.aliasPair && (docAz n.a).isSome && (match docLon n.l with | some (some _) => true | _ => false)
-
-/-- **exact set of disagreements** between `vector.obj` and the documented grammar -/
-theorem c06_obj_eq_doc_iff (n : NS) : objB n = docE (docB n) ↔ objCex n = false := by
-  cases hp : n.t.aliasPair
-  · simp [c06_obj_partial n hp, objCex, hp]
-  · rcases (TmpN.aliasPair_iff _).1 hp with ht | ht
-    · have h1 := c06_obj_tmp_Ee
-      rw [ht] at hp; simp only [TmpN.Ee] at hp
-      simp only [objB, docB, objCex, hp, c06_obj_az_eq_doc, c06_obj_lon_eq_doc, ht, TmpN.Ee, h1.1, h1.2]
-      cases n.other <;> rcases docAz n.a with _ | ⟨az, a1, a2⟩ <;> rcases docLon n.l with _ | _ | l <;> simp [docE]
-    · have h1 := c06_obj_tmp_Mm
-      rw [ht] at hp; simp only [TmpN.Mm] at hp
-      simp only [objB, docB, objCex, hp, c06_obj_az_eq_doc, c06_obj_lon_eq_doc, ht, TmpN.Mm, h1.1, h1.2]
-      cases n.other <;> rcases docAz n.a with _ | ⟨az, a1, a2⟩ <;> rcases docLon n.l with _ | _ | l <;> simp [docE]
+/-- the formerly accepted sets (`E` with `e`, `M` with `m`) are now rejected: the second spelling is not popped (l. 3191 /
+3200), becomes a key of its own in `generic_coordinates` (l. 3206) and is never consumed by `_gather_coordinates` -/
+theorem c06_obj_rejects_duplicate_temporal :
+    objTmp ⟨false, true, true, false, false, false, false, false⟩ = none ∧
+    objTmp ⟨false, false, false, false, false, true, true, false⟩ = none := by decide
 
 def boolUniv : List Bool := [false, true]
 def AzN.univ : List AzN :=
@@ -167,62 +121,14 @@ def TmpN.univ : List TmpN :=
   boolUniv.flatMap fun t => boolUniv.flatMap fun E => boolUniv.flatMap fun e => boolUniv.flatMap fun energy =>
   boolUniv.flatMap fun tau => boolUniv.flatMap fun M => boolUniv.flatMap fun m => boolUniv.map fun mass =>
     ⟨t, E, e, energy, tau, M, m, mass⟩
-theorem mem_boolUniv (b : Bool) : b ∈ boolUniv := by cases b <;> simp [boolUniv]
-theorem AzN.mem_univ : ∀ a : AzN, a ∈ AzN.univ := by
-  intro ⟨x, px, y, py, rho, pt, phi⟩
-  simp only [AzN.univ, List.mem_flatMap, List.mem_map]
-  exact ⟨x, mem_boolUniv _, px, mem_boolUniv _, y, mem_boolUniv _, py, mem_boolUniv _, rho, mem_boolUniv _,
-    pt, mem_boolUniv _, phi, mem_boolUniv _, rfl⟩
-theorem LonN.mem_univ : ∀ l : LonN, l ∈ LonN.univ := by
-  intro ⟨z, pz, theta, eta⟩
-  simp only [LonN.univ, List.mem_flatMap, List.mem_map]
-  exact ⟨z, mem_boolUniv _, pz, mem_boolUniv _, theta, mem_boolUniv _, eta, mem_boolUniv _, rfl⟩
-theorem TmpN.mem_univ : ∀ t : TmpN, t ∈ TmpN.univ := by
-  intro ⟨t, E, e, energy, tau, M, m, mass⟩
-  simp only [TmpN.univ, List.mem_flatMap, List.mem_map]
-  exact ⟨t, mem_boolUniv _, E, mem_boolUniv _, e, mem_boolUniv _, energy, mem_boolUniv _, tau, mem_boolUniv _,
-    M, mem_boolUniv _, m, mem_boolUniv _, mass, mem_boolUniv _, rfl⟩
-
-/-- the name sets on which `vector.obj` deviates from the grammar, listed -/
-def objCexList : List NS :=
-  (AzN.univ.filter fun a => (docAz a).isSome).flatMap fun a =>
-  (LonN.univ.filter fun l => match docLon l with | some (some _) => true | _ => false).flatMap fun l =>
-  (TmpN.univ.filter TmpN.aliasPair).map fun t => ⟨a, l, t, false⟩
-
-/-- there are exactly 48 of them: 6 azimuthal pairs × 4 longitudinal names × {E+e, M+m} -/
-theorem c06_obj_counterexamples_count : objCexList.length = 48 := by decide
-
-theorem c06_obj_counterexamples_mem (n : NS) : n ∈ objCexList ↔ objB n ≠ docE (docB n) := by
-  rw [Ne, c06_obj_eq_doc_iff]
-  rcases n with ⟨a, l, t, o⟩
-  simp only [objCexList, List.mem_flatMap, List.mem_map, List.mem_filter, AzN.mem_univ, LonN.mem_univ, TmpN.mem_univ,
-    true_and, objCex]
-  constructor
-  · rintro ⟨a', ha, l', hl, t', ht, h⟩
-    cases h
-    simp [ha, hl, ht]
-  · intro h
-    cases o <;> simp at h
-    obtain ⟨h1, h2, h3⟩ := h
-    exact ⟨a, h2, l, h3, t, h1, rfl⟩
 
 /-- on a documented set `vector.obj` builds exactly the documented vector -/
 theorem c06_obj_documented (n : NS) {d : CtorRes} (h : docB n = some d) : objB n = .ok d := by
-  have hp : n.t.aliasPair = false := by
-    cases hp : n.t.aliasPair
-    · rfl
-    · exfalso
-      have : docTmp n.t = none := by
-        rcases (TmpN.aliasPair_iff _).1 hp with ht | ht
-        · rw [ht]; exact c06_obj_tmp_Ee.2
-        · rw [ht]; exact c06_obj_tmp_Mm.2
-      simp only [docB, this] at h
-      cases n.other <;> rcases docAz n.a with _ | ⟨az, a1, a2⟩ <;> rcases docLon n.l with _ | _ | l <;> simp at h
-  rw [c06_obj_partial n hp, h]; rfl
+  rw [c06_obj_eq_doc, h]; rfl
 
-/-- `vector.obj` rejects with `TypeError` every undocumented set (outside the 48 exceptions) -/
-theorem c06_obj_rejects (n : NS) (h : docB n = none) (hp : n.t.aliasPair = false) : objB n = .error .typeError := by
-  rw [c06_obj_partial n hp, h]; rfl
+/-- `vector.obj` rejects with `TypeError` every undocumented set -/
+theorem c06_obj_rejects (n : NS) (h : docB n = none) : objB n = .error .typeError := by
+  rw [c06_obj_eq_doc, h]; rfl
 
 /-- an unrecognised name is always a `TypeError` -/
 theorem c06_obj_unknown_rejected (n : NS) (h : n.other = true) : objB n = .error .typeError := by
@@ -230,8 +136,7 @@ theorem c06_obj_unknown_rejected (n : NS) (h : n.other = true) : objB n = .error
 
 /-! list versions -/
 
-theorem c06_obj_model_partial (s : List CN) (h : (NS.ofList s).t.aliasPair = false) : objModel s = docE (Doc s) :=
-  c06_obj_partial _ h
+theorem c06_obj_model_eq_doc (s : List CN) : objModel s = docE (Doc s) := c06_obj_eq_doc _
 
 /-- the result of `vector.obj` does not depend on the order of the keywords -/
 theorem c06_obj_order_irrelevant {s s' : List CN} (h : ∀ k, k ∈ s ↔ k ∈ s') : objModel s = objModel s' := by
@@ -240,8 +145,8 @@ theorem c06_obj_order_irrelevant {s s' : List CN} (h : ∀ k, k ∈ s ↔ k ∈ 
 theorem c06_doc_order_irrelevant {s s' : List CN} (h : ∀ k, k ∈ s ↔ k ∈ s') : Doc s = Doc s' := by
   unfold Doc; rw [NS.ofList_congr h]
 
-example : objModel [.x, .y, .z, .E, .e] = .ok ⟨true, .xy, .x, .y, some (.z, .z), some (.t, .e)⟩ ∧ Doc [.x, .y, .z, .E, .e] = none := by decide
-example : objModel [.pt, .phi, .eta, .m, .M] = .ok ⟨true, .rhophi, .pt, .phi, some (.eta, .eta), some (.tau, .m)⟩ := by decide
+example : objModel [.x, .y, .z, .E, .e] = .error .typeError ∧ Doc [.x, .y, .z, .E, .e] = none := by decide
+example : objModel [.pt, .phi, .eta, .m, .M] = .error .typeError := by decide
 example : objModel [.x, .y, .z, .E, .energy] = .error .typeError := by decide
 example : objModel [.x, .px, .y] = .error .typeError := by decide
 example : objModel [.x, .y, .t] = .error .typeError := by decide
@@ -253,7 +158,7 @@ private theorem objAz_good : ∀ a, (match objAz a with | some c => azGood a c |
 private theorem objLon_good : ∀ l, (match objLon l with | some c => lonGoodO l c | none => true) = true := LonN.forall (by decide)
 private theorem objTmp_good : ∀ t, (match objTmp t with | some c => tmpGoodO t c | none => true) = true := TmpN.forall (by decide)
 
-/-- **`vector.obj` stores verbatim**: whenever it accepts (the 48 exceptions included), every slot of the result holds the
+/-- **`vector.obj` stores verbatim**: whenever it accepts, every slot of the result holds the
 value supplied under a name of the call that is a spelling of exactly that slot's coordinate; no value is computed,
 converted or moved to another coordinate. -/
 theorem c06_obj_verbatim (n : NS) {r : CtorRes} (h : objB n = .ok r) : Stored n r := by
@@ -306,46 +211,6 @@ theorem c06_wf_documented (r : CtorRes) (h : r.wf = true) :
 
 /-! ### (a) the object classes `VectorObject{2,3,4}D`, `MomentumObject{2,3,4}D` -/
 
-/-- `kwargs[c]` after the renaming loop: the last given spelling of `c` -/
-def pick (n : NS) (pr : CN → Nat) (c : Coord) : Option CN := pickMax pr (c.syn.filter n.has)
-
-theorem pickMax_mem (pr : CN → Nat) : ∀ (l : List CN) (k : CN), pickMax pr l = some k → k ∈ l := by
-  intro l
-  induction l with
-  | nil => intro k h; cases h
-  | cons a rest ih =>
-    intro k h
-    unfold pickMax at h
-    rcases hr : pickMax pr rest with _ | k'
-    · simp only [hr] at h; cases h; simp
-    · simp only [hr] at h
-      split at h <;> cases h
-      · exact List.mem_cons_of_mem _ (ih _ hr)
-      · simp
-
-theorem pickMax_isSome (pr : CN → Nat) : ∀ l : List CN, (pickMax pr l).isSome = !l.isEmpty := by
-  intro l
-  cases l with
-  | nil => rfl
-  | cons a rest =>
-    unfold pickMax
-    rcases pickMax pr rest with _ | k'
-    · rfl
-    · simp only []; split <;> rfl
-
-theorem syn_coord : ∀ (c : Coord) (k : CN), k ∈ c.syn → k.coord = c := by
-  intro c k; cases c <;> cases k <;> decide
-
-/-- the value stored under the generic key `c` was given under a spelling of `c` -/
-theorem pick_good {n : NS} {pr : CN → Nat} {c : Coord} {k : CN} (h : pick n pr c = some k) : k.coord = c ∧ n.has k = true := by
-  have := pickMax_mem pr _ _ h
-  rw [List.mem_filter] at this
-  exact ⟨syn_coord _ _ this.1, this.2⟩
-
-theorem pick_isSome (n : NS) (pr : CN → Nat) (c : Coord) : (pick n pr c).isSome = c.syn.any n.has := by
-  unfold pick; rw [pickMax_isSome]
-  cases c <;> simp only [Coord.syn, List.filter, List.any] <;> (repeat' split) <;> simp_all
-
 def azOfKW : Option CN → Option CN → Option CN → Option CN → Option AzC
   | some vx, some vy, none, none => some (.xy, vx, vy)
   | none, none, some vr, some vp => some (.rhophi, vr, vp)
@@ -384,9 +249,10 @@ private theorem class4_comb (mom : Bool) (kw : KW) :
   rcases kw with ⟨x, y, rho, phi, z, theta, eta, t, tau⟩
   cases x <;> cases y <;> cases rho <;> cases phi <;> cases z <;> cases theta <;> cases eta <;> cases t <;> cases tau <;> rfl
 
-def clsAz (n : NS) (pr : CN → Nat) : Option AzC := azOfKW (pick n pr .x) (pick n pr .y) (pick n pr .rho) (pick n pr .phi)
-def clsLon (n : NS) (pr : CN → Nat) : Option (Option LonC) := lonOfKW (pick n pr .z) (pick n pr .theta) (pick n pr .eta)
-def clsTmp (n : NS) (pr : CN → Nat) : Option (Option TmpC) := tmpOfKW (pick n pr .t) (pick n pr .tau)
+/-- the group parts of `kwargs` after the renaming loop -/
+def clsAz (a : AzN) : Option AzC := azOfKW (fieldOf a.has .x) (fieldOf a.has .y) (fieldOf a.has .rho) (fieldOf a.has .phi)
+def clsLon (l : LonN) : Option (Option LonC) := lonOfKW (fieldOf l.has .z) (fieldOf l.has .theta) (fieldOf l.has .eta)
+def clsTmp (t : TmpN) : Option (Option TmpC) := tmpOfKW (fieldOf t.has .t) (fieldOf t.has .tau)
 
 private theorem classComb_baddim {dim : Nat} (mom : Bool) (A : Option AzC) (L : Option (Option LonC)) (T : Option (Option TmpC))
     (h2 : dim ≠ 2) (h3 : dim ≠ 3) (h4 : dim ≠ 4) : classComb dim mom A L T = .error .typeError := by
@@ -410,89 +276,6 @@ private theorem classComb_ok {dim : Nat} {mom : Bool} {A : Option AzC} {L : Opti
       | some _ => rfl
     · simp [hc, hd] at h
 
-/-- the row-by-row class constructors (l. 671-682, 1039-1068, 1702-1767) are the single rule `classComb` -/
-theorem classB_comb (dim : Nat) (mom : Bool) (n : NS) (pr : CN → Nat) :
-    classB dim mom n pr = if n.other then .error .typeError else classComb dim mom (clsAz n pr) (clsLon n pr) (clsTmp n pr) := by
-  unfold classB
-  cases n.other <;> simp only [if_true, if_false, Bool.false_eq_true]
-  split
-  · exact class2_comb _ _
-  · exact class3_comb _ _
-  · exact class4_comb _ _
-  · rename_i h2 h3 h4
-    exact (classComb_baddim mom _ _ _ (fun h => h2 h) (fun h => h3 h) (fun h => h4 h)).symm
-
-private theorem cls_az_doc (n : NS) (pr : CN → Nat) (c : AzC) : docAz n.a = some c → clsAz n pr = some c := by
-  rcases n with ⟨⟨x, px, y, py, rho, pt, phi⟩, l, t, o⟩
-  cases x <;> cases px <;> cases y <;> cases py <;> cases rho <;> cases pt <;> cases phi <;>
-    intro h <;> first | (cases h; rfl) | (cases h)
-private theorem cls_lon_doc (n : NS) (pr : CN → Nat) (c : Option LonC) : docLon n.l = some c → clsLon n pr = some c := by
-  rcases n with ⟨a, ⟨z, pz, theta, eta⟩, t, o⟩
-  cases z <;> cases pz <;> cases theta <;> cases eta <;> intro h <;> first | (cases h; rfl) | (cases h)
-private theorem cls_tmp_doc (n : NS) (pr : CN → Nat) (c : Option TmpC) : docTmp n.t = some c → clsTmp n pr = some c := by
-  rcases n with ⟨a, l, ⟨t, E, e, energy, tau, M, m, mass⟩, o⟩
-  cases t <;> cases E <;> cases e <;> cases energy <;> cases tau <;> cases M <;> cases m <;> cases mass <;>
-    intro h <;> first | (cases h; rfl) | (cases h)
-
-/-- **the classes on documented sets**: the class of the right dimension builds the documented vector (coordinate system and
-slot contents as documented, in any keyword order); its flavor is the CLASS (`mom`), whatever the spelling of the names;
-the classes of the other dimensions raise `TypeError`. -/
-theorem c06_class_documented (dim : Nat) (mom : Bool) (n : NS) (pr : CN → Nat) {d : CtorRes} (h : docB n = some d) :
-    classB dim mom n pr = if d.dim = dim then .ok { d with mom := mom } else .error .typeError := by
-  rw [classB_comb]
-  unfold docB at h
-  cases ho : n.other <;> simp only [ho, if_true, if_false, Bool.false_eq_true] at h ⊢
-  · rcases hA : docAz n.a with _ | ⟨az, a1, a2⟩ <;> rcases hL : docLon n.l with _ | lon <;>
-      rcases hT : docTmp n.t with _ | tmp <;> simp only [hA, hL, hT] at h <;> try cases h
-    rw [cls_az_doc n pr _ hA, cls_lon_doc n pr _ hL, cls_tmp_doc n pr _ hT]
-    unfold classComb
-    split at h
-    · cases h
-    · cases h
-      rename_i hc
-      simp only [hc, if_false, Bool.false_eq_true, CtorRes.dim]
-      split <;> simp
-  · cases h
-
-/-- the flavor of a class result is the class -/
-theorem c06_class_flavor {dim : Nat} {mom : Bool} {n : NS} {pr : CN → Nat} {r : CtorRes} (h : classB dim mom n pr = .ok r) :
-    r.mom = mom := by
-  rw [classB_comb] at h
-  cases ho : n.other <;> simp only [ho, if_true, if_false, Bool.false_eq_true] at h
-  · obtain ⟨az, a1, a2, lon, tmp, _, _, _, _, rfl, _⟩ := classComb_ok h
-    rfl
-  · cases h
-
-/-- **the classes store verbatim**: whenever a class accepts, every slot holds the value given under a spelling of that
-slot's coordinate (with several spellings of one coordinate: under the LAST of them in keyword order). -/
-theorem c06_class_verbatim {dim : Nat} {mom : Bool} {n : NS} {pr : CN → Nat} {r : CtorRes} (h : classB dim mom n pr = .ok r) :
-    Stored n r := by
-  rw [classB_comb] at h
-  cases ho : n.other <;> simp only [ho, if_true, if_false, Bool.false_eq_true] at h
-  · obtain ⟨az, a1, a2, lon, tmp, hA, hL, hT, htl, rfl, hdim⟩ := classComb_ok h
-    have hax : a1.coord = az.c1 ∧ a2.coord = az.c2 ∧ n.has a1 = true ∧ n.has a2 = true := by
-      unfold clsAz at hA
-      rcases hx : pick n pr .x with _ | vx <;> rcases hy : pick n pr .y with _ | vy <;>
-        rcases hr : pick n pr .rho with _ | vr <;> rcases hp : pick n pr .phi with _ | vp <;>
-        simp only [hx, hy, hr, hp, azOfKW] at hA <;> cases hA
-      · exact ⟨(pick_good hr).1, (pick_good hp).1, (pick_good hr).2, (pick_good hp).2⟩
-      · exact ⟨(pick_good hx).1, (pick_good hy).1, (pick_good hx).2, (pick_good hy).2⟩
-    refine stored_of_parts' hax.1 hax.2.1 hax.2.2.1 hax.2.2.2 ?_ ?_ htl
-    · rintro c k rfl
-      unfold clsLon at hL
-      rcases hz : pick n pr .z with _ | vz <;> rcases hth : pick n pr .theta with _ | vth <;>
-        rcases he : pick n pr .eta with _ | ve <;> simp only [hz, hth, he, lonOfKW] at hL <;> cases hL
-      · exact pick_good he
-      · exact pick_good hth
-      · exact pick_good hz
-    · rintro c k rfl
-      unfold clsTmp at hT
-      rcases ht : pick n pr .t with _ | vt <;> rcases hta : pick n pr .tau with _ | vta <;>
-        simp only [ht, hta, tmpOfKW] at hT <;> cases hT
-      · exact pick_good hta
-      · exact pick_good ht
-  · cases h
-
 private theorem classComb_err {dim : Nat} {mom : Bool} {A : Option AzC} {L : Option (Option LonC)} {T : Option (Option TmpC)}
     {e : CtorErr} (h : classComb dim mom A L T = .error e) : e = .typeError := by
   rcases A with _ | ⟨az, a1, a2⟩ <;> rcases L with _ | lon <;> rcases T with _ | tmp <;>
@@ -503,143 +286,133 @@ private theorem classComb_err {dim : Nat} {mom : Bool} {A : Option AzC} {L : Opt
     · simp [hc, hd] at h
     · simp only [hc, hd, if_false, Bool.false_eq_true] at h; cases h; rfl
 
-/-- the classes only ever raise `TypeError` -/
-theorem c06_class_error_kind {dim : Nat} {mom : Bool} {n : NS} {pr : CN → Nat} {e : CtorErr} (h : classB dim mom n pr = .error e) :
-    e = .typeError := by
-  rw [classB_comb] at h
-  cases ho : n.other <;> simp only [ho, if_true, if_false, Bool.false_eq_true] at h
-  · exact classComb_err h
-  · cases h; rfl
+/-- the row-by-row class constructors (l. 676-687, 1049-1078, 1720-1785) are the single rule `classComb` -/
+theorem classB_comb (dim : Nat) (mom : Bool) (n : NS) :
+    classB dim mom n = if n.other then .error .typeError else if n.synDup then .error .typeError else
+      classComb dim mom (clsAz n.a) (clsLon n.l) (clsTmp n.t) := by
+  unfold classB
+  cases n.other <;> simp only [if_true, if_false, Bool.false_eq_true]
+  cases n.synDup <;> simp only [if_true, if_false, Bool.false_eq_true]
+  split
+  · exact class2_comb _ _
+  · exact class3_comb _ _
+  · exact class4_comb _ _
+  · rename_i h2 h3 h4
+    exact (classComb_baddim mom _ _ _ (fun h => h2 h) (fun h => h3 h) (fun h => h4 h)).symm
 
-/-- the generic image of a name set: every name replaced by its generic spelling -/
-def AzN.collapse (a : AzN) : AzN := ⟨a.x || a.px, false, a.y || a.py, false, a.rho || a.pt, false, a.phi⟩
-def LonN.collapse (l : LonN) : LonN := ⟨l.z || l.pz, false, l.theta, l.eta⟩
-def TmpN.collapse (t : TmpN) : TmpN :=
-  ⟨t.t || t.E || t.e || t.energy, false, false, false, t.tau || t.M || t.m || t.mass, false, false, false⟩
-def NS.collapse (n : NS) : NS := ⟨n.a.collapse, n.l.collapse, n.t.collapse, n.other⟩
-/-- some coordinate is spelled twice (`x` and `px`, `t` and `E`, `E` and `energy`, …) -/
-def NS.synDup (n : NS) : Bool := n.a.dup || n.l.dup || n.t.dup
+/-- on a name set in which no coordinate is spelled twice the group parts of `kwargs` are the documented reading of the group;
+a name set in which a coordinate is spelled twice is not documented -/
+private theorem cls_az_doc : ∀ a : AzN, (if a.dup then docAz a = none else clsAz a = docAz a) := AzN.forall (by decide)
+private theorem cls_lon_doc : ∀ l : LonN, (if l.dup then docLon l = none else clsLon l = docLon l) := LonN.forall (by decide)
+private theorem cls_tmp_doc : ∀ t : TmpN, (if t.dup then docTmp t = none else clsTmp t = docTmp t) := TmpN.forall (by decide)
+
+/-- a name set with a repeated spelling is undocumented -/
+theorem c06_doc_synDup {n : NS} (h : n.synDup = true) : docB n = none := by
+  have hA := cls_az_doc n.a; have hL := cls_lon_doc n.l; have hT := cls_tmp_doc n.t
+  simp only [NS.synDup, Bool.or_eq_true] at h
+  unfold docB
+  cases n.other <;> simp only [if_true, if_false, Bool.false_eq_true]
+  rcases h with (h | h) | h <;> simp only [h, if_true] at hA hL hT
+  · rw [hA]
+  · rw [hL]; rcases docAz n.a with _ | ⟨az, a1, a2⟩ <;> rfl
+  · rw [hT]; rcases docAz n.a with _ | ⟨az, a1, a2⟩ <;> rcases docLon n.l with _ | l <;> rfl
+
+/-- **the object classes = documented grammar, up to the flavor**: `VectorObject<dim>D(**kw)` (`mom = false`) and
+`MomentumObject<dim>D(**kw)` (`mom = true`) accept EXACTLY the documented name sets of dimension `dim` (generic or momentum
+spellings, any keyword order) and build the documented vector — coordinate system and slot contents as documented — whose
+flavor is the CLASS; every other name set (another dimension, missing partner, two coordinates of one group, a coordinate
+spelled twice, temporal without longitudinal, unrecognised name) raises `TypeError`. -/
+theorem c06_class_eq_doc (dim : Nat) (mom : Bool) (n : NS) :
+    classB dim mom n = match docB n with
+      | some d => if d.dim = dim then .ok { d with mom := mom } else .error .typeError
+      | none => .error .typeError := by
+  rw [classB_comb]
+  cases hs : n.synDup
+  · have hA := cls_az_doc n.a; have hL := cls_lon_doc n.l; have hT := cls_tmp_doc n.t
+    simp only [NS.synDup, Bool.or_eq_false_iff] at hs
+    simp only [hs.1.1, hs.1.2, hs.2, if_false, Bool.false_eq_true] at hA hL hT
+    rw [hA, hL, hT]
+    unfold docB
+    cases n.other <;> simp only [if_true, if_false, Bool.false_eq_true]
+    rcases docAz n.a with _ | ⟨az, a1, a2⟩ <;> rcases docLon n.l with _ | _ | l <;> rcases docTmp n.t with _ | _ | t <;>
+      simp [classComb, CtorRes.dim]
+  · rw [c06_doc_synDup hs]
+    cases n.other <;> rfl
+
+theorem c06_class_documented (dim : Nat) (mom : Bool) (n : NS) {d : CtorRes} (h : docB n = some d) :
+    classB dim mom n = if d.dim = dim then .ok { d with mom := mom } else .error .typeError := by
+  rw [c06_class_eq_doc, h]
+
+/-- the classes reject every undocumented name set with `TypeError` (in particular every repeated spelling:
+`VectorObject2D(x=1, px=2, y=3)`, `MomentumObject4D(px=, py=, pz=, E=, e=)`) -/
+theorem c06_class_rejects (dim : Nat) (mom : Bool) (n : NS) (h : docB n = none) : classB dim mom n = .error .typeError := by
+  rw [c06_class_eq_doc, h]
 
 def okB {α : Type} : Except CtorErr α → Bool | .ok _ => true | .error _ => false
 
-/-- the dimension of a combination of (coordinate system)s, if it is a legal one -/
-def shapeDim : Option Az → Option (Option Lon) → Option (Option Tmp) → Option Nat
-  | some _, some lon, some tmp =>
-    if tmp.isSome && lon.isNone then none else some (2 + (if lon.isSome then 1 else 0) + (if tmp.isSome then 1 else 0))
-  | _, _, _ => none
-
-private theorem docB_dim (n : NS) : (docB n).map CtorRes.dim =
-    if n.other then none else
-      shapeDim ((docAz n.a).map (·.1)) ((docLon n.l).map (·.map (·.1))) ((docTmp n.t).map (·.map (·.1))) := by
-  unfold docB
-  cases n.other <;> simp only [if_true, if_false, Bool.false_eq_true, Option.map_none]
-  rcases docAz n.a with _ | ⟨az, a1, a2⟩ <;> rcases docLon n.l with _ | _ | l <;> rcases docTmp n.t with _ | _ | t <;> rfl
-
-private theorem okB_ite {α : Type} (c : Prop) [Decidable c] (r : α) (e : CtorErr) :
-    okB (if c then Except.ok r else Except.error e) = decide c := by
-  split <;> simp_all [okB]
-
-private theorem dec_beq (a b : Nat) : decide (a = b) = (a == b) := by by_cases h : a = b <;> simp [h]
-
-private theorem classComb_okB (dim : Nat) (mom : Bool) (A : Option AzC) (L : Option (Option LonC)) (T : Option (Option TmpC)) :
-    okB (classComb dim mom A L T) = (shapeDim (A.map (·.1)) (L.map (·.map (·.1))) (T.map (·.map (·.1))) == some dim) := by
-  rcases A with _ | ⟨az, a1, a2⟩ <;> rcases L with _ | _ | l <;> rcases T with _ | _ | t <;>
-    simp [classComb, shapeDim, okB_ite] <;> first | rfl | exact dec_beq _ _
-
-def azShape : Bool → Bool → Bool → Bool → Option Az
-  | true, true, false, false => some .xy
-  | false, false, true, true => some .rhophi
-  | _, _, _, _ => none
-def lonShape : Bool → Bool → Bool → Option (Option Lon)
-  | false, false, false => some none
-  | true, false, false => some (some .z)
-  | false, true, false => some (some .theta)
-  | false, false, true => some (some .eta)
-  | _, _, _ => none
-def tmpShape : Bool → Bool → Option (Option Tmp)
-  | false, false => some none
-  | true, false => some (some .t)
-  | false, true => some (some .tau)
-  | _, _ => none
-
-private theorem azOfKW_map (x y r p : Option CN) : (azOfKW x y r p).map (·.1) = azShape x.isSome y.isSome r.isSome p.isSome := by
-  cases x <;> cases y <;> cases r <;> cases p <;> rfl
-private theorem lonOfKW_map (z th e : Option CN) : (lonOfKW z th e).map (·.map (·.1)) = lonShape z.isSome th.isSome e.isSome := by
-  cases z <;> cases th <;> cases e <;> rfl
-private theorem tmpOfKW_map (t ta : Option CN) : (tmpOfKW t ta).map (·.map (·.1)) = tmpShape t.isSome ta.isSome := by
-  cases t <;> cases ta <;> rfl
-
-private theorem cls_az_shape (n : NS) (pr : CN → Nat) : (clsAz n pr).map (·.1) = (docAz n.a.collapse).map (·.1) := by
-  unfold clsAz; rw [azOfKW_map]; simp only [pick_isSome]
-  rcases n with ⟨⟨x, px, y, py, rho, pt, phi⟩, l, t, o⟩
-  cases x <;> cases px <;> cases y <;> cases py <;> cases rho <;> cases pt <;> cases phi <;> rfl
-private theorem cls_lon_shape (n : NS) (pr : CN → Nat) : (clsLon n pr).map (·.map (·.1)) = (docLon n.l.collapse).map (·.map (·.1)) := by
-  unfold clsLon; rw [lonOfKW_map]; simp only [pick_isSome]
-  rcases n with ⟨a, ⟨z, pz, theta, eta⟩, t, o⟩
-  cases z <;> cases pz <;> cases theta <;> cases eta <;> rfl
-private theorem cls_tmp_shape (n : NS) (pr : CN → Nat) : (clsTmp n pr).map (·.map (·.1)) = (docTmp n.t.collapse).map (·.map (·.1)) := by
-  unfold clsTmp; rw [tmpOfKW_map]; simp only [pick_isSome]
-  rcases n with ⟨a, l, ⟨t, E, e, energy, tau, M, m, mass⟩, o⟩
-  cases t <;> cases E <;> cases e <;> cases energy <;> cases tau <;> cases M <;> cases m <;> cases mass <;> rfl
-
-/-- **exact acceptance set of the classes**: `VectorObject<dim>D` / `MomentumObject<dim>D` accept a name set iff its GENERIC
-IMAGE (every name replaced by its generic spelling, repetitions merged) is a documented set of dimension `dim`. -/
-theorem c06_class_accepts_iff (dim : Nat) (mom : Bool) (n : NS) (pr : CN → Nat) :
-    okB (classB dim mom n pr) = ((docB n.collapse).map CtorRes.dim == some dim) := by
-  rw [classB_comb, docB_dim]
-  show okB (if n.other then _ else _) = ((if n.other then _ else _) == some dim)
-  cases n.other <;> simp only [if_true, if_false, Bool.false_eq_true]
-  · rw [classComb_okB, cls_az_shape, cls_lon_shape, cls_tmp_shape]; rfl
+/-- **exact acceptance set of the classes**: the documented sets of dimension `dim` -/
+theorem c06_class_accepts_iff (dim : Nat) (mom : Bool) (n : NS) :
+    okB (classB dim mom n) = ((docB n).map CtorRes.dim == some dim) := by
+  rw [c06_class_eq_doc]
+  rcases docB n with _ | d
   · rfl
+  · by_cases hd : d.dim = dim <;> simp [hd, okB]
 
-theorem c06_class_accepts_iff' (dim : Nat) (mom : Bool) (n : NS) (pr : CN → Nat) :
-    (∃ r, classB dim mom n pr = .ok r) ↔ ∃ d, docB n.collapse = some d ∧ d.dim = dim := by
-  have h := c06_class_accepts_iff dim mom n pr
-  constructor
-  · rintro ⟨r, hr⟩
-    rw [hr] at h
-    rcases hd : docB n.collapse with _ | d
-    · simp [hd, okB] at h
-    · simp [hd, okB] at h; exact ⟨d, rfl, h⟩
-  · rintro ⟨d, hd, hdim⟩
-    rw [hd] at h
-    rcases hr : classB dim mom n pr with e | r
-    · simp [hr, okB, hdim] at h
-    · exact ⟨r, rfl⟩
+theorem c06_class_accepts_iff' (dim : Nat) (mom : Bool) (n : NS) :
+    (∃ r, classB dim mom n = .ok r) ↔ ∃ d, docB n = some d ∧ d.dim = dim := by
+  rw [c06_class_eq_doc]
+  rcases docB n with _ | d
+  · simp
+  · by_cases hd : d.dim = dim <;> simp [hd]
 
-private theorem doc_az_nodup : ∀ a : AzN, a.dup = false → (docAz a.collapse).map (·.1) = (docAz a).map (·.1) := AzN.forall (by decide)
-private theorem doc_lon_nodup : ∀ l : LonN, l.dup = false → (docLon l.collapse).map (·.map (·.1)) = (docLon l).map (·.map (·.1)) :=
-  LonN.forall (by decide)
-private theorem doc_tmp_nodup : ∀ t : TmpN, t.dup = false → (docTmp t.collapse).map (·.map (·.1)) = (docTmp t).map (·.map (·.1)) :=
-  TmpN.forall (by decide)
+/-- the flavor of a class result is the class -/
+theorem c06_class_flavor {dim : Nat} {mom : Bool} {n : NS} {r : CtorRes} (h : classB dim mom n = .ok r) : r.mom = mom := by
+  rw [c06_class_eq_doc] at h
+  rcases hd' : docB n with _ | d <;> simp only [hd'] at h
+  · cases h
+  · by_cases hd : d.dim = dim <;> simp only [hd, if_true, if_false] at h <;> cases h
+    rfl
 
-/-- **the classes against the grammar**: on a name set WITHOUT two spellings of one coordinate the classes raise `TypeError`
-unless the set is documented (then see `c06_class_documented`). -/
-theorem c06_class_partial (dim : Nat) (mom : Bool) (n : NS) (pr : CN → Nat) (h : docB n = none) (hd : n.synDup = false) :
-    classB dim mom n pr = .error .typeError := by
-  simp only [NS.synDup, Bool.or_eq_false_iff] at hd
-  have hdim : (docB n.collapse).map CtorRes.dim = (docB n).map CtorRes.dim := by
-    rw [docB_dim, docB_dim]
-    show (if n.other then _ else shapeDim ((docAz n.a.collapse).map _) ((docLon n.l.collapse).map _) ((docTmp n.t.collapse).map _)) = _
-    rw [doc_az_nodup _ hd.1.1, doc_lon_nodup _ hd.1.2, doc_tmp_nodup _ hd.2]
-  have hk := c06_class_accepts_iff dim mom n pr
-  rw [hdim, h] at hk
-  rcases hr : classB dim mom n pr with e | r
-  · rw [c06_class_error_kind hr]
-  · simp [hr, okB] at hk
+/-- the classes only ever raise `TypeError` -/
+theorem c06_class_error_kind {dim : Nat} {mom : Bool} {n : NS} {e : CtorErr} (h : classB dim mom n = .error e) :
+    e = .typeError := by
+  rw [c06_class_eq_doc] at h
+  rcases hd' : docB n with _ | d <;> simp only [hd'] at h
+  · cases h; rfl
+  · by_cases hd : d.dim = dim <;> simp only [hd, if_true, if_false] at h <;> cases h
+    rfl
 
-/-- **the discrepancies of the classes** (all are ACCEPTED although the grammar forbids them or prescribes another flavor) -/
-theorem c06_class_accepts_synonym_duplicates :
-    -- `VectorObject2D(x=1, px=2, y=3)` → `VectorObject2D(x=2, y=3)`: the later keyword wins
-    classModel 2 false [.x, .px, .y] = .ok ⟨false, .xy, .px, .y, none, none⟩ ∧ Doc [.x, .px, .y] = none ∧
-    classModel 2 false [.px, .x, .y] = .ok ⟨false, .xy, .x, .y, none, none⟩ ∧
-    -- `MomentumObject4D(px=, py=, pz=, E=, e=, energy=, t=)`: four spellings of `t`
-    classModel 4 true [.px, .py, .pz, .E, .e, .energy, .t] = .ok ⟨true, .xy, .px, .py, some (.z, .pz), some (.t, .t)⟩ ∧
-    -- the flavor is the class: momentum spellings build a generic vector, generic spellings a momentum vector
+private theorem stored_with_mom {n : NS} {r : CtorRes} (m : Bool) (h : Stored n r) : Stored n { r with mom := m } := by
+  cases r; exact h
+
+/-- a documented vector holds the supplied names verbatim -/
+theorem c06_doc_stored {n : NS} {d : CtorRes} (h : docB n = some d) : Stored n d :=
+  c06_obj_verbatim n (c06_obj_documented n h)
+
+/-- **the classes store verbatim**: whenever a class accepts, every slot holds the value given under the (unique) supplied
+spelling of that slot's coordinate. -/
+theorem c06_class_verbatim {dim : Nat} {mom : Bool} {n : NS} {r : CtorRes} (h : classB dim mom n = .ok r) : Stored n r := by
+  rw [c06_class_eq_doc] at h
+  rcases hd' : docB n with _ | d <;> simp only [hd'] at h
+  · cases h
+  · by_cases hd : d.dim = dim <;> simp only [hd, if_true, if_false] at h <;> cases h
+    exact stored_with_mom mom (c06_doc_stored hd')
+
+theorem c06_class_order_irrelevant (dim : Nat) (mom : Bool) {s s' : List CN} (h : ∀ k, k ∈ s ↔ k ∈ s') :
+    classModel dim mom s = classModel dim mom s' := by
+  unfold classModel; rw [NS.ofList_congr h]
+
+/-- the one deviation of the classes from the grammar that is left: the flavor is the class, not the spelling; and the
+formerly accepted repeated spellings are rejected -/
+theorem c06_class_examples :
     classModel 2 false [.px, .py] = .ok ⟨false, .xy, .px, .py, none, none⟩ ∧
     Doc [.px, .py] = some ⟨true, .xy, .px, .py, none, none⟩ ∧
     classModel 3 true [.rho, .phi, .eta] = .ok ⟨true, .rhophi, .rho, .phi, some (.eta, .eta), none⟩ ∧
-    Doc [.rho, .phi, .eta] = some ⟨false, .rhophi, .rho, .phi, some (.eta, .eta), none⟩ := by decide
+    Doc [.rho, .phi, .eta] = some ⟨false, .rhophi, .rho, .phi, some (.eta, .eta), none⟩ ∧
+    classModel 2 false [.x, .px, .y] = .error .typeError ∧ classModel 2 false [.px, .x, .y] = .error .typeError ∧
+    classModel 4 true [.px, .py, .pz, .E, .e] = .error .typeError ∧
+    classModel 4 false [.x, .y, .z, .E, .t] = .error .typeError ∧
+    classModel 3 false [.x, .y, .z, .t] = .error .typeError := by decide
 
 /-! ### (c) `vector.array` -/
 
@@ -668,9 +441,6 @@ theorem c06_doc_covers {n : NS} {d : CtorRes} (h : docB n = some d) (k : CN) (hk
       rcases hT' : docTmp n.t with _ | _ | t <;> simp only [hA', hL', hT'] at h hA hL hT <;> (try cases h) <;>
       (try (simp at h; done))
     all_goals
-      simp only [Option.isSome_none, Option.isNone_none, Option.isSome_some, Option.isNone_some, Bool.and_false, Bool.false_and,
-        Bool.and_true, if_false, Bool.false_eq_true, Option.some.injEq] at h
-      subst h
       have h1 := CN.all_all _ hA k; have h2 := CN.all_all _ hL k; have h3 := CN.all_all _ hT k
       simp only [NS.has, Bool.or_eq_true] at hk
       simp only [Bool.or_eq_true, Bool.not_eq_true', beq_iff_eq] at h1 h2 h3
@@ -682,27 +452,51 @@ private theorem npAz_good : ∀ a, (match npAz a with | some c => azGood a c | n
 private theorem npLon_good : ∀ l, (match npLon l with | some c => lonGood l c | none => true) = true := LonN.forall (by decide)
 private theorem npTmp_good : ∀ t, (match npTmp t with | some c => tmpGood t c | none => true) = true := TmpN.forall (by decide)
 
+/-- `npB` with the class choice (l. 2159-2164) spelled out -/
+theorem npB_cases (n : NS) : npB n =
+    if !(n.a.any || n.l.any || n.t.any || n.other) then .error .valueError else
+    if n.anyMom && (n.a.dup || n.l.dup || n.t.dup) then .error .valueError else
+    match npAz n.a with
+    | none => .error .typeError
+    | some (az, a1, a2) =>
+      if n.t.any then
+        (match npLon n.l with
+         | none => .error .typeError
+         | some l => match npTmp n.t with
+           | none => .error .typeError
+           | some t => .ok ⟨n.anyMom, az, a1, a2, some l, some t⟩)
+      else if n.l.any then
+        (match npLon n.l with
+         | none => .error .typeError
+         | some l => .ok ⟨n.anyMom, az, a1, a2, some l, none⟩)
+      else .ok ⟨n.anyMom, az, a1, a2, none, none⟩ := by
+  simp only [npB]
+  cases n.t.any <;> cases n.l.any <;> rfl
+
 /-- **`vector.array` stores verbatim and never builds a vector from an incomplete set**: whenever it accepts, the slots
 hold supplied names of the right coordinates (`Stored`), hence (`c06_wf_documented`) the names used form a documented,
 complete coordinate set, interpreted as documented; the flavor is taken from ALL names, extras included. -/
 theorem c06_array_verbatim {n : NS} {r : CtorRes} (h : npB n = .ok r) : Stored n r ∧ r.mom = n.anyMom := by
   have hA := npAz_good n.a; have hL := npLon_good n.l; have hT := npTmp_good n.t
-  simp only [npB] at h
-  split at h
-  · cases h
-  · split at h
-    · cases h
+  rw [npB_cases] at h
+  cases h0 : (!(n.a.any || n.l.any || n.t.any || n.other)) <;> simp only [h0, if_true, if_false, Bool.false_eq_true] at h
+  · cases h1 : (n.anyMom && (n.a.dup || n.l.dup || n.t.dup)) <;> simp only [h1, if_true, if_false, Bool.false_eq_true] at h
     · rcases hA' : npAz n.a with _ | ⟨az, a1, a2⟩ <;> simp only [hA'] at h hA
       · cases h
-      · split at h
+      · cases hta : n.t.any <;> cases hla : n.l.any <;> simp only [hta, hla, if_true, if_false, Bool.false_eq_true] at h
         · cases h; exact ⟨stored_of_parts hA rfl rfl (by simp), rfl⟩
+        · rcases hL' : npLon n.l with _ | l <;> simp only [hL'] at h hL <;> cases h
+          exact ⟨stored_of_parts hA hL rfl (by simp), rfl⟩
         · rcases hL' : npLon n.l with _ | l <;> simp only [hL'] at h hL
           · cases h
-          · split at h
-            · cases h; exact ⟨stored_of_parts hA hL rfl (by simp), rfl⟩
-            · rcases hT' : npTmp n.t with _ | t <;> simp only [hT'] at h hT
-              · cases h
-              · cases h; exact ⟨stored_of_parts hA hL hT (by simp), rfl⟩
+          · rcases hT' : npTmp n.t with _ | t <;> simp only [hT'] at h hT <;> cases h
+            exact ⟨stored_of_parts hA hL hT (by simp), rfl⟩
+        · rcases hL' : npLon n.l with _ | l <;> simp only [hL'] at h hL
+          · cases h
+          · rcases hT' : npTmp n.t with _ | t <;> simp only [hT'] at h hT <;> cases h
+            exact ⟨stored_of_parts hA hL hT (by simp), rfl⟩
+    · cases h
+  · cases h
 
 theorem c06_array_extras (n : NS) (r : CtorRes) (k : CN) : k ∈ npExtra n r ↔ n.has k = true ∧ k ∉ r.fillers := by
   simp [npExtra, List.mem_filter, NS.mem_toList]
@@ -726,9 +520,6 @@ theorem c06_array_documented {n : NS} {d : CtorRes} (h : docB n = some d) : npB 
         rcases hT' : docTmp n.t with _ | _ | t <;> simp only [hA', hL', hT'] at h hA hL hT <;> (try cases h) <;>
         (try (simp at h; done))
       all_goals
-        simp only [Option.isSome_none, Option.isNone_none, Option.isSome_some, Option.isNone_some, Bool.and_false, Bool.false_and,
-          Bool.and_true, if_false, Bool.false_eq_true, Option.some.injEq] at h
-        subst h
         simp only [Bool.and_eq_true, beq_iff_eq, Bool.not_eq_true'] at hA hL hT
         simp [npB, hA, hL, hT, ho]
     · cases h
@@ -748,5 +539,262 @@ theorem c06_array_examples :
     -- an incomplete set is never a vector
     arrayModel [.x, .y, .t] = .error .typeError ∧ arrayModel [.x, .z] = .error .typeError ∧
     arrayModel [.px, .py, .pz, .theta, .E, .M] = .ok ⟨⟨true, .xy, .px, .py, some (.z, .pz), some (.t, .E)⟩, [.theta, .M]⟩ := by decide
+
+/-! ### (c) `vector.zip`, `vector.Array` (`_check_names`) -/
+
+private theorem akAz_spec : ∀ a, (match akAz a with
+    | .ok st => (match st.c with
+        | some c => azGood a c && (st.mom == (c.2.1.isMom || c.2.2.isMom)) &&
+            CN.all.all (fun k => a.has k == (k == c.2.1 || k == c.2.2 || st.rem.has k)) &&
+            !st.rem.has c.2.1 && !st.rem.has c.2.2
+        | none => true)
+    | .error e => e == .typeError) = true := AzN.forall (by decide)
+
+def akLonSpec (dim : Nat) (l : LonN) : Bool :=
+  match akLon dim l with
+  | .ok (d, lon) => (d == (if lon.isSome then 3 else dim)) && lonGoodO l lon && (!lon.isSome || dim == 2) &&
+      CN.all.all (fun k => l.has k == (match lon with | some (_, j) => k == j | none => false))
+  | .error e => e == .typeError
+def akTmpSpec (dim : Nat) (t : TmpN) : Bool :=
+  match akTmp dim t with
+  | .ok (d, tmp) => (d == (if tmp.isSome then 4 else dim)) && tmpGoodO t tmp && (!tmp.isSome || dim == 3) &&
+      CN.all.all (fun k => t.has k == (match tmp with | some (_, j) => k == j | none => false))
+  | .error e => e == .typeError
+private theorem akLon_spec : ∀ l, (akLonSpec 0 l && akLonSpec 2 l) = true := LonN.forall (by decide)
+private theorem akTmp_spec : ∀ t, (akTmpSpec 0 t && akTmpSpec 2 t && akTmpSpec 3 t) = true := TmpN.forall (by decide)
+
+theorem c06_zip_verbatim {n : NS} {r : CtorRes} {rem : AzN} (h : akB n = .ok (r, rem)) :
+    Stored n r ∧ r.mom = r.fillers.any CN.isMom ∧ (∀ k, n.has k = true → k ∈ r.fillers ∨ rem.has k = true) ∧
+    (∀ k, rem.has k = true → n.a.has k = true ∧ k ≠ r.a1 ∧ k ≠ r.a2) := by
+  have hA := akAz_spec n.a; have hL := akLon_spec n.l; have hT := akTmp_spec n.t
+  rcases h1 : akAz n.a with e | st
+  · simp [akB, h1, bind, Except.bind] at h
+  · simp only [akB, h1, bind, Except.bind] at h
+    simp only [Bool.and_eq_true] at hL hT
+    obtain ⟨_, hL2⟩ := hL
+    obtain ⟨⟨_, hT2⟩, hT3⟩ := hT
+    rcases hc : st.c with _ | ⟨az, a1, a2⟩
+    · simp only [hc, Option.isSome_none, Bool.false_eq_true, if_false] at h
+      rcases h2 : akLon 0 n.l with e | v <;> simp only [h2] at h
+      · cases h
+      · rcases h3 : akTmp v.fst n.t with e | v1 <;> simp only [h3] at h <;> cases h
+    · simp only [hc, h1, Option.isSome_some, if_true] at h hA
+      rcases h2 : akLon 2 n.l with e | ⟨d1, lon⟩ <;> simp only [h2] at h
+      · cases h
+      · unfold akLonSpec at hL2
+        simp only [h2, Bool.and_eq_true, beq_iff_eq] at hL2
+        obtain ⟨⟨⟨hd1, hLg⟩, _⟩, hLall⟩ := hL2
+        subst hd1
+        have key : ∀ (tmp : Option TmpC) (d2 : Nat), akTmp (if lon.isSome = true then 3 else 2) n.t = .ok (d2, tmp) →
+            tmpGoodO n.t tmp = true ∧ (tmp.isSome = true → lon.isSome = true) ∧
+            (CN.all.all fun k => n.t.has k == (match tmp with | some (_, j) => k == j | none => false)) = true := by
+          intro tmp d2 h3
+          cases lon with
+          | none =>
+            simp only [Option.isSome_none, Bool.false_eq_true, if_false] at h3
+            unfold akTmpSpec at hT2
+            simp only [h3, Bool.and_eq_true, beq_iff_eq, Bool.or_eq_true, Bool.not_eq_true'] at hT2
+            obtain ⟨⟨⟨_, hg⟩, hd⟩, hall⟩ := hT2
+            refine ⟨hg, ?_, hall⟩
+            intro ht; rw [ht] at hd; simp at hd
+          | some lc =>
+            simp only [Option.isSome_some, if_true] at h3
+            unfold akTmpSpec at hT3
+            simp only [h3, Bool.and_eq_true, beq_iff_eq] at hT3
+            exact ⟨hT3.1.1.2, fun _ => rfl, hT3.2⟩
+        rcases h3 : akTmp (if lon.isSome = true then 3 else 2) n.t with e | ⟨d2, tmp⟩ <;> simp only [h3] at h
+        · cases h
+        · obtain ⟨hTg, htl, hTall⟩ := key tmp d2 h3
+          simp only [Except.ok.injEq, Prod.mk.injEq] at h
+          obtain ⟨rfl, rfl⟩ := h
+          simp only [Bool.and_eq_true, beq_iff_eq, Bool.not_eq_true'] at hA
+          obtain ⟨⟨⟨⟨hAg, hmom⟩, hAall⟩, hr1⟩, hr2⟩ := hA
+          refine ⟨stored_of_parts hAg hLg hTg htl, ?_, ?_, ?_⟩
+          · rw [hmom]
+            rcases lon with _ | ⟨lc, lk⟩ <;> rcases tmp with _ | ⟨tc, tk⟩ <;> simp [CtorRes.fillers, Bool.or_assoc]
+          · intro k hk
+            have h1 := CN.all_all _ hAall k; have h2 := CN.all_all _ hLall k; have h3 := CN.all_all _ hTall k
+            simp only [beq_iff_eq] at h1 h2 h3
+            simp only [NS.has, Bool.or_eq_true] at hk
+            rcases lon with _ | ⟨lc, lk⟩ <;> rcases tmp with _ | ⟨tc, tk⟩ <;>
+              simp only [CtorRes.fillers, List.mem_append, List.mem_cons, List.not_mem_nil, or_false] <;>
+              rcases hk with (hk | hk) | hk <;> simp_all <;> (try (rcases h1 with (h | h) | h <;> simp [h]))
+          · intro k hk
+            have h1 := CN.all_all _ hAall k
+            simp only [beq_iff_eq] at h1
+            refine ⟨by simp [h1, hk], ?_, ?_⟩
+            · rintro rfl; simp [hk] at hr1
+            · rintro rfl; simp [hk] at hr2
+
+private theorem ak_az_doc : ∀ a, (match docAz a with
+    | some c => akAz a == .ok ⟨some c, c.2.1.isMom || c.2.2.isMom, .empty⟩ && (a.anyMom == (c.2.1.isMom || c.2.2.isMom))
+    | none => true) = true := AzN.forall (by decide)
+private theorem ak_lon_doc : ∀ l, (match docLon l with
+    | some lon => akLon 2 l == .ok (if lon.isSome then 3 else 2, lon) &&
+        (l.anyMom == (match lon with | some (_, k) => k.isMom | none => false))
+    | none => true) = true := LonN.forall (by decide)
+private theorem ak_tmp_doc : ∀ t, (match docTmp t with
+    | some tmp => akTmp 3 t == .ok (if tmp.isSome then 4 else 3, tmp) && (tmp.isSome || akTmp 2 t == .ok (2, none)) &&
+        (t.anyMom == (match tmp with | some (_, k) => k.isMom | none => false))
+    | none => true) = true := TmpN.forall (by decide)
+
+/-- on a documented set `vector.zip` / `vector.Array` build exactly the documented vector, without extra fields -/
+theorem c06_zip_documented {n : NS} {d : CtorRes} (h : docB n = some d) : akB n = .ok (d, .empty) := by
+  have hA := ak_az_doc n.a; have hL := ak_lon_doc n.l; have hT := ak_tmp_doc n.t
+  unfold docB at h
+  cases ho : n.other <;> simp only [ho, if_true, if_false, Bool.false_eq_true] at h
+  · rcases hA' : docAz n.a with _ | ⟨az, a1, a2⟩ <;> rcases hL' : docLon n.l with _ | _ | l <;>
+      rcases hT' : docTmp n.t with _ | _ | t <;> simp only [hA', hL', hT'] at h hA hL hT <;> (try cases h) <;>
+      (try (simp at h; done))
+    all_goals
+      simp only [Bool.and_eq_true, beq_iff_eq, Bool.or_eq_true, Option.isSome_none, Option.isSome_some, Bool.false_eq_true,
+        false_or, true_or, if_true, if_false] at hA hL hT
+      simp [akB, bind, Except.bind, hA, hL, hT, NS.anyMom]
+  · cases h
+
+/-! ### C06 assembled, for lists of names -/
+
+/-- list form of `Stored`: the result is well formed (every slot holds a spelling of its own coordinate; temporal only with
+longitudinal) and every stored name was supplied -/
+def StoredL (s : List CN) (r : CtorRes) : Prop := r.wf = true ∧ ∀ k ∈ r.fillers, k ∈ s
+
+theorem Stored.toList {s : List CN} {r : CtorRes} (h : Stored (.ofList s) r) : StoredL s r :=
+  ⟨h.1, fun k hk => by simpa [NS.has_ofList] using h.2 k hk⟩
+
+theorem NS.anyMom_ofList (s : List CN) : (NS.ofList s).anyMom = s.any CN.isMom := by
+  rw [Bool.eq_iff_iff]
+  simp only [NS.anyMom, AzN.anyMom, LonN.anyMom, TmpN.anyMom, NS.ofList, NS.ofP, AzN.ofP, LonN.ofP, TmpN.ofP,
+    Bool.or_eq_true, List.contains_iff_mem, List.any_eq_true]
+  constructor
+  · rintro ((((h | h) | h) | h) | (((((h | h) | h) | h) | h) | h)) <;> exact ⟨_, h, rfl⟩
+  · rintro ⟨k, hk, hm⟩
+    cases k <;> simp_all [CN.isMom]
+
+private theorem with_mom_self (d : CtorRes) : (⟨d.mom, d.az, d.a1, d.a2, d.lon, d.tmp⟩ : CtorRes) = d := by cases d; rfl
+
+/-- **C06, positive part**: on every documented coordinate-name set (in any order, any documented momentum spelling) all
+constructors build the documented vector — dimension, coordinate system, flavor, and each slot holding the value
+supplied under the corresponding name — and they agree with each other; the array constructors add no extra field; the
+classes of the other dimensions raise `TypeError`.  (The classes take their flavor from the class: `MomentumObject*`
+with generic spellings / `VectorObject*` with momentum spellings is accepted too, see `c06_class_documented`.) -/
+theorem c06_all_agree_on_documented (s : List CN) {d : CtorRes} (h : Doc s = some d) :
+    objModel s = .ok d ∧ classModel d.dim d.mom s = .ok d ∧
+    (∀ mom, classModel d.dim mom s = .ok { d with mom := mom }) ∧
+    (∀ dim mom, dim ≠ d.dim → classModel dim mom s = .error .typeError) ∧
+    arrayModel s = .ok ⟨d, []⟩ ∧ zipModel s = .ok ⟨d, []⟩ ∧ akArrayModel s = .ok ⟨d, []⟩ := by
+  have hz : zipModel s = .ok ⟨d, []⟩ := by
+    unfold zipModel
+    rw [c06_zip_documented h]
+    simp only [Except.map, ArrRes.mk.injEq, Except.ok.injEq, true_and, List.filter_eq_nil_iff]
+    intro k hk
+    have := c06_doc_covers h k (by rw [NS.has_ofList]; simpa using hk)
+    simpa using this
+  refine ⟨c06_obj_documented _ h, ?_, ?_, ?_, ?_, hz, hz⟩
+  · unfold classModel; rw [c06_class_documented _ _ _ h, if_pos rfl, with_mom_self]
+  · intro mom; unfold classModel; rw [c06_class_documented _ _ _ h, if_pos rfl]
+  · intro dim mom hd; unfold classModel; rw [c06_class_documented _ _ _ h, if_neg (fun e => hd e.symm)]
+  · unfold arrayModel
+    rw [(c06_array_documented h).1]
+    simp only [Except.map, (c06_array_documented h).2]
+
+/-- **C06, verbatim storage**: whatever any constructor accepts, each slot of the vector holds the value supplied under
+a name of the call which is a spelling of exactly that slot's coordinate, and the stored names form a documented
+(complete) coordinate set whose documented coordinate system and dimension are those of the vector built. -/
+theorem c06_stored_is_documented {s : List CN} {r : CtorRes} (h : StoredL s r) :
+    Doc r.fillers = some { r with mom := r.fillers.any CN.isMom } := c06_wf_documented r h.1
+
+theorem c06_obj_model_verbatim {s : List CN} {r : CtorRes} (h : objModel s = .ok r) :
+    StoredL s r ∧ r.mom = s.any CN.isMom := by
+  refine ⟨(c06_obj_verbatim _ h).toList, ?_⟩
+  rw [← NS.anyMom_ofList]
+  unfold objModel objB at h
+  split at h
+  · cases h
+  · split at h <;> cases h <;> rfl
+
+theorem c06_class_model_verbatim {dim : Nat} {mom : Bool} {s : List CN} {r : CtorRes} (h : classModel dim mom s = .ok r) :
+    StoredL s r ∧ r.mom = mom ∧ r.dim = dim := by
+  refine ⟨(c06_class_verbatim h).toList, c06_class_flavor h, ?_⟩
+  unfold classModel at h
+  rw [c06_class_eq_doc] at h
+  rcases hd' : docB (NS.ofList s) with _ | d <;> simp only [hd'] at h
+  · cases h
+  · by_cases hd : d.dim = dim <;> simp only [hd, if_true, if_false] at h <;> cases h
+    exact hd
+
+/-- `vector.obj` and the classes reject with `TypeError`, never with another exception -/
+theorem c06_obj_error_kind {n : NS} {e : CtorErr} (h : objB n = .error e) : e = .typeError := by
+  unfold objB at h
+  split at h
+  · cases h; rfl
+  · split at h <;> cases h <;> rfl
+
+/-- **C06, negative part**: every undocumented set of names (a missing partner, two coordinates of one group, the same
+coordinate spelled twice through synonyms, a temporal coordinate without a longitudinal one, unknown names) is rejected with
+`TypeError` by `vector.obj` and by every object class -/
+theorem c06_rejects (s : List CN) (h : Doc s = none) (dim : Nat) (mom : Bool) :
+    objModel s = .error .typeError ∧ classModel dim mom s = .error .typeError :=
+  ⟨c06_obj_rejects _ h, c06_class_rejects _ _ _ h⟩
+
+/-- `vector.obj` and each object class, as functions of the name list, ARE the documented grammar (the classes up to the
+dimension test and the flavor) -/
+theorem c06_obj_class_eq_doc (s : List CN) (dim : Nat) (mom : Bool) :
+    objModel s = docE (Doc s) ∧
+    classModel dim mom s = (match Doc s with
+      | some d => if d.dim = dim then .ok { d with mom := mom } else .error .typeError
+      | none => .error .typeError) :=
+  ⟨c06_obj_eq_doc _, c06_class_eq_doc _ _ _⟩
+
+/-- **C06, array constructors (NumPy)**: whatever `vector.array` accepts, the vector part is built from a documented,
+complete subset of the supplied names, stored verbatim and interpreted as documented; all other names are extra fields;
+the flavor is "some supplied name (extra or not) is a momentum spelling". -/
+theorem c06_array_sound {s : List CN} {r : CtorRes} {ex : List CN} (h : arrayModel s = .ok ⟨r, ex⟩) :
+    StoredL s r ∧ Doc r.fillers = some { r with mom := r.fillers.any CN.isMom } ∧ r.mom = s.any CN.isMom ∧
+    ∀ k, k ∈ ex ↔ k ∈ s ∧ k ∉ r.fillers := by
+  unfold arrayModel at h
+  rcases hn : npB (.ofList s) with e | r' <;> simp only [hn, Except.map] at h
+  · cases h
+  · simp only [Except.ok.injEq, ArrRes.mk.injEq] at h
+    obtain ⟨rfl, rfl⟩ := h
+    have hv := c06_array_verbatim hn
+    refine ⟨hv.1.toList, c06_wf_documented _ hv.1.1, by rw [hv.2, NS.anyMom_ofList], ?_⟩
+    intro k
+    rw [c06_array_extras, NS.has_ofList]; simp
+
+theorem AzN.has_isAz {a : AzN} {k : CN} (h : a.has k = true) : k.isAz = true := by
+  cases k <;> simp_all [AzN.has, CN.isAz]
+
+/-- **C06, array constructors (Awkward)**: whatever `vector.zip` / `vector.Array` accept, the vector part is built from a
+documented, complete subset of the supplied names, stored verbatim, and is EXACTLY the documented vector of that subset
+(flavor included); the remaining names are extra fields, and they can only be azimuthal names (every longitudinal or
+temporal name is either used or makes the call fail). -/
+theorem c06_zip_sound {s : List CN} {r : CtorRes} {ex : List CN} (h : zipModel s = .ok ⟨r, ex⟩) :
+    StoredL s r ∧ Doc r.fillers = some r ∧ (∀ k, k ∈ ex ↔ k ∈ s ∧ k ∉ r.fillers) ∧ ∀ k ∈ ex, k.isAz = true := by
+  unfold zipModel at h
+  rcases hn : akB (.ofList s) with e | ⟨r', rem⟩ <;> simp only [hn, Except.map] at h
+  · cases h
+  · simp only [Except.ok.injEq, ArrRes.mk.injEq] at h
+    obtain ⟨rfl, rfl⟩ := h
+    obtain ⟨hst, hmom, hcov, hrem⟩ := c06_zip_verbatim hn
+    have hdoc := c06_wf_documented _ hst.1
+    rw [← hmom, with_mom_self] at hdoc
+    refine ⟨hst.toList, hdoc, fun k => by simp [List.mem_filter], ?_⟩
+    intro k hk
+    simp only [List.mem_filter, Bool.not_eq_true', List.contains_eq_mem, decide_eq_false_iff_not] at hk
+    rcases hcov k (by rw [NS.has_ofList]; simpa using hk.1) with h1 | h1
+    · exact absurd h1 hk.2
+    · exact AzN.has_isAz h1
+
+theorem c06_zip_examples :
+    zipModel [.x, .y, .px] = .ok ⟨⟨false, .xy, .x, .y, none, none⟩, [.px]⟩ ∧
+    zipModel [.px, .py, .x] = .ok ⟨⟨true, .xy, .x, .py, none, none⟩, [.px]⟩ ∧
+    zipModel [.x, .y, .rho, .phi] = .error .typeError ∧ zipModel [.x, .y, .z, .E, .e] = .error .typeError ∧
+    zipModel [.x, .y, .t] = .error .typeError ∧ zipModel [.x, .y, .z, .theta] = .error .typeError ∧
+    zipModel [.rho, .mass, .x, .y, .z] = .ok ⟨⟨true, .xy, .x, .y, some (.z, .z), some (.tau, .mass)⟩, [.rho]⟩ := by decide
+
+/-- size of the documented grammar: 6 azimuthal pairs, (no | 4) longitudinal names, (no | 8) temporal names -/
+theorem c06_doc_counts :
+    (AzN.univ.filter fun a => (docAz a).isSome).length = 6 ∧ (LonN.univ.filter fun l => (docLon l).isSome).length = 5 ∧
+    (TmpN.univ.filter fun t => (docTmp t).isSome).length = 9 := by decide
 
 end VG
